@@ -10,7 +10,8 @@ Inductive case :=
 (* the parent key string presented to Authorize after the request: still the key it was *)
 | CProbe (parent : res kerr key) (parent_str : bytes) (ct : contract) (now : Z) (text : bytes) (perm : N) (ok : bool).
 
-Definition near (a b : N) : bool := (a <=? b + 3) && (b <=? a + 3).
+(* 0 is not a date but "never expires": it is near nothing else *)
+Definition near (a b : N) : bool := (a <=? b + 3) && (b <=? a + 3) && Bool.eqb (a =? 0) (b =? 0).
 
 (* all bytes equal except the expiry field, which may differ by the seconds that passed *)
 Definition key_close (a b : bytes) : bool :=
@@ -94,7 +95,7 @@ Definition check (c : case) : N :=
         if (ttl =? 0)%Z then key_expiry_field k =? 0
         else if (timeOffset <? expires)%Z && (expires <? timeOffset + 4294967296)%Z
              then near (key_expiry_field k) (Z.to_N (expires - timeOffset))
-             else if (expires <=? timeOffset)%Z then key_expiry_field k <=? 2
+             else if (expires <=? timeOffset)%Z then (1 <=? key_expiry_field k) && (key_expiry_field k <=? 2)
              else 4294967290 <=? key_expiry_field k
       | _ => true
       end in
